@@ -10,6 +10,7 @@ pub mod arc4;
 pub mod lookup3;
 pub mod md5;
 pub mod salsa20;
+pub mod tagmask;
 
 /// Run every reference's known-answer self-check. Returns the list of failures (empty = ok)
 /// and the number of vectors checked.
